@@ -220,7 +220,7 @@ def run_model(tag, cases, timeout=600):
         path = os.path.join(workdir, "one_%d.v" % i)
         with open(path, "w") as f:
             f.write(COQ_PRELUDE)
-            f.write("Eval vm_compute in (run_case %s).\n" % _zlist(c))
+            f.write("Eval vm_compute in (run_case2 %s).\n" % _zlist(c))
         rc, out, err = _coqc(path, timeout)
         if rc != 0:
             raise CheckError("model evaluation failed:\n" + (out + err)[-3000:])
